@@ -371,7 +371,7 @@ def overlap_requests(raw, route):
 
 # effective debug logging while the edit runs: the global CLI flag -v, a host
 # program that set the `torrentfile` logger (or the root logger) to DEBUG
-DEBUG_VARIANTS = {"lib": ["debug", "rootdebug"], "cli": ["v"]}
+DEBUG_VARIANTS = {"lib": ["debug", "rootdebug", "reuse"], "cli": ["v"]}
 
 
 def apply_request(route, path, req, variant=None):
@@ -381,6 +381,19 @@ def apply_request(route, path, req, variant=None):
             args[f] = list(v) if isinstance(v, list) else v
         with tf.quiet():
             if variant is None:
+                tf.edit.edit_torrent(path, args)
+                return
+            if variant == "reuse":
+                # the host keeps one request dictionary and applies it to
+                # several metafiles: here to a scratch copy first, then to
+                # the file that is judged
+                import shutil
+                scratch = path + ".other-metafile"
+                shutil.copyfile(path, scratch)
+                try:
+                    tf.edit.edit_torrent(scratch, args)
+                finally:
+                    os.remove(scratch)
                 tf.edit.edit_torrent(path, args)
                 return
             import logging
